@@ -65,5 +65,4 @@ Example ex_ser_blocked : srun 3 sinit [EvEnter 0; EvEnter 1] = None. Proof. vm_c
 Example ex_sites_count : length map_sites = 63%nat. Proof. vm_compute. reflexivity. Qed.
 Example ex_sites_sorted : existsb (fun s => match class_of s with Some (SortedAfter _) => true | _ => false end) map_sites = true.
 Proof. vm_compute. reflexivity. Qed.
-Example ex_sites_known_bad : known_are_present_and_bad = true. Proof. vm_compute. reflexivity. Qed.
 Example ex_no_stale : stale_entries = []. Proof. vm_compute. reflexivity. Qed.
